@@ -240,4 +240,87 @@ Section C02Model.
     lsum (fun p => v3norm2 O (v3sub O (rotate q (fst p)) (snd p))) l.
   Definition sq_norms (l : list (V3 * V3)) : T * T :=
     (lsum (fun p => v3norm2 O (fst p)) l, lsum (fun p => v3norm2 O (snd p)) l).
+  (* ---------------------------------------------------------------- components built on the optimal rotation
+     (src/colvarcomp_rotations.cpp, rmsd and eigenvector of src/colvarcomp_distances.cpp,
+     atom_group::calc_apply_roto_translation).  The quaternion q is what rotation::calc_optimal_rotation returned for
+     the pairs named below (its eigen-solver is outside the model; the theorems take its optimality as a premise,
+     the tie computes q with an independent Jacobi iteration in the driver). *)
+  (* quaternion product (operator * of cvm::quaternion) and conjugate *)
+  Definition qmul (h q : Q4) : Q4 :=
+    let '(h0, h1, h2, h3) := h in let '(q0, q1, q2, q3) := q in
+    (h0 * q0 - h1 * q1 - h2 * q2 - h3 * q3,
+     h0 * q1 + h1 * q0 + h2 * q3 - h3 * q2,
+     h0 * q2 + h2 * q0 + h3 * q1 - h1 * q3,
+     h0 * q3 + h3 * q0 + h1 * q2 - h2 * q1).
+  Definition qconj (q : Q4) : Q4 := let '(q0, q1, q2, q3) := q in (q0, nneg O q1, nneg O q2, nneg O q3).
+
+  Definition pts_cog (l : list V3) : V3 := v3div (vsum (fun p => p) l) (nofnat (length l)).
+  Definition center_pts (l : list V3) : list V3 := let c := pts_cog l in map (fun p => v3sub O p c) l.
+  (* a group fitted on its own reference (centerToReference + rotateToReference, the default of rmsd and eigenvector):
+     calc_optimal_rotation (centred positions, centred reference) *)
+  Definition fit_pairs (ref : list V3) (g : list atom) : list (V3 * V3) := combine (centered g) (center_pts ref).
+  (* positions after the fit: centre on the origin, rotate, move to the centre of the reference *)
+  Definition fit_positions (q : Q4) (ref : list V3) (g : list atom) : list V3 :=
+    let rc := pts_cog ref in map (fun p => v3add O (rotate q p) rc) (centered g).
+  Definition cv_rmsd (q : Q4) (ref : list V3) (g : list atom) : T :=
+    nsqrt O (lsum (fun pr => v3norm2 O (v3sub O (fst pr) (snd pr))) (combine (fit_positions q ref g) ref)
+             / nofnat (length g)).
+  (* eigenvector: projection of the fitted displacement on the (centred) vector *)
+  Definition cv_eigenvector (q : Q4) (ref vec : list V3) (g : list atom) : T :=
+    lsum (fun t => v3dot O (v3sub O (fst (fst t)) (snd (fst t))) (snd t))
+         (combine (combine (fit_positions q ref g) ref) (center_pts vec)).
+
+  (* orientation family: calc_optimal_rotation (centred reference, centred positions): q turns the reference onto the atoms *)
+  Definition orient_pairs (ref : list V3) (g : list atom) : list (V3 * V3) := combine (center_pts ref) (centered g).
+  Definition cv_orientation (refq q : Q4) : Q4 := if nleb O zero (qdot O q refq) then q else qneg O q.
+  Definition cv_orientation_angle (q : Q4) : T :=
+    let '(q0, q1, q2, q3) := q in deg (two * nacos O (if nleb O zero q0 then q0 else nneg O q0)).
+  Definition cv_orientation_proj (q : Q4) : T := let '(q0, q1, q2, q3) := q in two * q0 * q0 - one.
+  (* rotation::spin_angle (reduced to (-180,180]) followed by the periodic wrap of the component *)
+  Definition spin_angle_of (axis : V3) (q : Q4) : T :=
+    let '(q0, q1, q2, q3) := q in
+    let alpha := deg (two * natan2 O (v3dot O axis (q1, q2, q3)) q0) in
+    if nltb O (nofZ O 180) alpha then alpha - nofZ O 360
+    else if nltb O alpha (nneg O (nofZ O 180)) then alpha + nofZ O 360 else alpha.
+  Definition cv_spin_angle (axis : V3) (q : Q4) : T := cvc_wrap O zero (nofZ O 360) (spin_angle_of (norm_axis axis) q).
+  (* rotation::cos_theta *)
+  Definition cv_tilt (axis : V3) (q : Q4) : T :=
+    let '(q0, q1, q2, q3) := q in
+    let alpha := deg (two * natan2 O (v3dot O (norm_axis axis) (q1, q2, q3)) q0) in
+    let cos_spin_2 := ncos O (alpha * (pi / nofZ O 180) * nhalf O) in
+    let cos_theta_2 := if neqb O cos_spin_2 zero then zero else q0 / cos_spin_2 in
+    two * (cos_theta_2 * cos_theta_2) - one.
+  Definition cv_euler_phi (q : Q4) : T :=
+    let '(q0, q1, q2, q3) := q in
+    deg (natan2 O (two * (q0 * q1 + q2 * q3)) (one - two * (q1 * q1 + q2 * q2))).
+  Definition cv_euler_psi (q : Q4) : T :=
+    let '(q0, q1, q2, q3) := q in
+    deg (natan2 O (two * (q0 * q3 + q1 * q2)) (one - two * (q2 * q2 + q3 * q3))).
+  (* asin x = pi/2 - acos x *)
+  Definition cv_euler_theta (q : Q4) : T :=
+    let '(q0, q1, q2, q3) := q in
+    deg (pi * nhalf O - nacos O (two * (q0 * q2 - q3 * q1))).
+  (* distancePairs: all N1 x N2 distances, group2 index running fastest *)
+  Definition cv_distance_pairs (pbc : bool) (cell : option V3) (g1 g2 : list atom) : list T :=
+    flat_map (fun a1 => map (fun a2 => v3norm (pdist pbc cell (a_pos a1) (a_pos a2))) g2) g1.
+  (* ---------------------------------------------------------------- coordNum with a pair list (tolerance > 0)
+     coordnum::switching_function with ef_use_pairlist: at a rebuild step every pair is evaluated and flagged
+     (func > -tolerance/2); at the other steps unflagged pairs are skipped (contribute 0) *)
+  Definition switching_raw (r0 : T) (r0v : option V3) (en ed : Z) (tol : T) (cell : option V3) (p1 p2 : V3) : T :=
+    let '(dx, dy, dz) := position_distance O cell p1 p2 in
+    let sd := match r0v with
+              | Some (a, b, c) => (dx / a, dy / b, dz / c)
+              | None => (dx / r0, dy / r0, dz / r0)
+              end in
+    let l2 := v3norm2 O sd in
+    let xn := ipow l2 (Z.quot en 2) in
+    let xd := ipow l2 (Z.quot ed 2) in
+    ((one - xn) / (one - xd) - tol) / (one - tol).
+  Definition all_pairs (g1 g2 : list atom) : list (atom * atom) := flat_map (fun a1 => map (fun a2 => (a1, a2)) g2) g1.
+  Definition pairlist_build (r0 : T) (r0v : option V3) (en ed : Z) (tol : T) (cell : option V3) (g1 g2 : list atom) : list bool :=
+    map (fun pr => nltb O (nneg O (tol * nhalf O)) (switching_raw r0 r0v en ed tol cell (a_pos (fst pr)) (a_pos (snd pr))))
+        (all_pairs g1 g2).
+  Definition cv_coordnum_pl (pl : list bool) (r0 : T) (r0v : option V3) (en ed : Z) (tol : T) (cell : option V3) (g1 g2 : list atom) : T :=
+    lsum (fun t : bool * (atom * atom) => if fst t then switching r0 r0v en ed tol cell (a_pos (fst (snd t))) (a_pos (snd (snd t))) else zero)
+         (combine pl (all_pairs g1 g2)).
 End C02Model.
